@@ -134,8 +134,12 @@ fn structured(rng: &mut Rng) -> Vec<u8> {
                 }
             }
             // long strings with many newlines
-            6 => match rng.below(4) {
-                0 => out.push(b'\n'),
+            6 => match rng.below(24) {
+                0..=5 => out.push(b'\n'),
+                6 => out.push(b'\r'),
+                7 => out.extend_from_slice(b"\r\n"),
+                8 => out.push(b'\t'),
+                9 => out.push(0x0c),
                 _ => out.push(b'a' + rng.below(26) as u8),
             },
             // arbitrary bytes
